@@ -16,6 +16,8 @@ Definition xpc_code (xw : xworld) (t : nat) : Z :=
   | XIdle => 0 | XwStore _ => 1 | XwLoadMu _ => 2 | XwEnq _ => 3 | XwUnlock _ => 4 | XwLoop _ => 5 | XwSem _ => 6
   | XwLoad6 _ => 7 | XwConfirm _ => 8 | XwLoad13 _ => 9 | XwReacq _ => 10 | XkLoad _ => 11 | XkSelect _ => 12
   | XvLoad1 _ => 13 | XvCas1 _ _ => 14 | XvLoad3 _ => 15 | XvCas2 _ _ => 16 | XvLoad5 _ => 17 | XvStore _ => 18 | XvV _ _ => 19
+  | XnStore0 _ => 20 | XnEnq _ => 21 | XnUnlock _ => 22 | XnReady _ => 23 | XnSem _ => 24 | XnDeq _ => 25 | XnSpin _ => 26
+  | XnReacq _ => 27
   | XCrash _ => 99
   end.
 (* a mutex operation of the thread is in progress (MuModel pc not Idle, or an operation handed over and not begun) *)
@@ -25,7 +27,7 @@ Definition held_of (xw : xworld) (t : nat) : option mode := held (get (mw xw) t)
 Definition v_target (xw : xworld) (t : nat) : option nat :=
   match x_pc (xget xw t) with
   | XvV _ p => Some p
-  | XIdle | XwUnlock _ => match t_pc (get (mw xw) t) with UsWakeV _ p _ => Some p | _ => None end
+  | XIdle | XwUnlock _ | XnUnlock _ => match t_pc (get (mw xw) t) with UsWakeV _ p _ => Some p | _ => None end
   | _ => None
   end.
 (* the thread sleeps (or is about to) on its semaphore inside nsync_mu_lock_slow_ *)
